@@ -10,15 +10,19 @@ PID = "C20"
 LEAN_MODULE = "NiVerif.Props.C20"
 NAMESPACE = "Props.C20"
 DRIVER = "drivers/C20.lean"
-GEN_MODULES = []
+GEN_MODULES = ["TimingArgs", "Irregular"]
+EXTRA_LEAN_MODULES = ["NiVerif.Props.C20b"]
 THEOREMS = ["unsupported_ok", "ctor_accepts_iff_allowed", "ctor_error_class", "ctor_stores", "has_flags_exact",
-            "absent_member_RuntimeError", "empty_has_nothing", "eq_iff_members", "named_ctors_agree"]
+            "absent_member_RuntimeError", "empty_has_nothing", "eq_iff_members", "named_ctors_agree",
+            "gen_unsupported_eq_model", "gen_strategy_table", "gen_ctor_eq_model", "gen_validators_accept_iff"]
 RULE = ("the whole matrix: 4 modes (NONE, REGULAR, IRREGULAR, unknown) x 13 argument kinds for each of "
         "(timestamp, time_offset, sample_interval, timestamps) = 4 x 13^4 constructor calls on the real class, each "
         "compared with the Lean model's verdict (accepted members / error class) and with the property's table; "
         "plus family mixtures, named constructors, attribute protection, equality; non-trivial = not all-absent")
-TRUSTED = ["hand model NiVerif/Model/Timing.lean of Timing.__init__/validate_init_args (exhaustively compared on the "
-           "argument-kind matrix); Python attribute protection (slots/properties) is observed, not modelled"]
+TRUSTED = ["hand model NiVerif/Model/Timing.lean of Timing.__init__ (exhaustively compared on the argument-kind matrix); its validation "
+           "part is PROVED equal to the validators regenerated from the source (Gen/TimingArgs, theorem gen_ctor_eq_model); the abstraction "
+           "of Python objects to argument kinds (isinstance over the three time families, Sequence, None) is the translator's; Python "
+           "attribute protection (slots/properties) is observed, not modelled"]
 ASSUMPTIONS = ["one representative value per argument kind (plus seeded mixtures); validation only inspects types, "
                "sequence-ness and monotonicity"]
 
